@@ -404,3 +404,48 @@ def r35_4(ctx, m, rid="R35.4"):
     ta = [_norm(e) for e, a, st in spa.returns]
     okk = len(tf) == 1 and len(ta) == 1 and "self._sop.matvec(" in tf[0] and "rmatvec" not in tf[0] and "self._sop.rmatvec(" in ta[0] and "reshape(self.domain.shape)" in ta[0]
     ctx.check(rid, f"{ap.key}::forward = matvec, adjoint = rmatvec reshaped to the domain", okk, f"{tf} / {ta}", ap)
+
+
+def r35_5(ctx, m):
+    """row-major strides of the line-of-sight pixel index"""
+    mod = m.module("nifty.cl.library.los_response")
+    fi = mod.functions.get("_comp_traverse")
+    ctx.rule("R35.5", "LOSResponse: the flat pixel index uses row-major strides, stride[i] = stride[i+1] * shape[i+1] with the last "
+                      "stride equal to 1 (the same index in the stride that is read and the extent that multiplies it)", floor=1)
+    key = "nifty/cl/library/los_response.py::_comp_traverse::row-major strides"
+    if fi is None:
+        ctx.und("R35.5", key, "_comp_traverse missing", mod.relpath)
+        return
+    ctx.saw_func(fi)
+    shp = fi.params()[2]
+    hits = []
+    for lp in walk_no_nested(fi.node):
+        if isinstance(lp, ast.For):
+            for st in lp.body:
+                if isinstance(st, ast.Assign) and isinstance(st.targets[0], ast.Subscript) and isinstance(st.value, ast.BinOp) and isinstance(st.value.op, ast.Mult):
+                    a, b = st.value.left, st.value.right
+                    arr = src(st.targets[0].value)
+                    subs = [x for x in (a, b) if isinstance(x, ast.Subscript)]
+                    if len(subs) == 2 and {src(subs[0].value), src(subs[1].value)} == {arr, shp}:
+                        hits.append((lp, st, arr))
+    if len(hits) != 1:
+        ctx.und("R35.5", key, f"{len(hits)} stride recurrences found", fi)
+        return
+    lp, st, arr = hits[0]
+    i = src(lp.target)
+    tgt = _norm(st.targets[0].slice)
+    rd_stride = [x for x in (st.value.left, st.value.right) if src(x.value) == arr][0]
+    rd_shape = [x for x in (st.value.left, st.value.right) if src(x.value) == shp][0]
+    good = tgt == i and _norm(rd_stride.slice) == f"{i}+1" and _norm(rd_shape.slice) == f"{i}+1" and _norm(lp.iter).startswith("range(-2,")
+    init = [s_ for s_ in walk_no_nested(fi.node) if isinstance(s_, ast.Assign) and src(s_.targets[0]) == arr and isinstance(s_.value, ast.Call)]
+    good = good and len(init) == 1 and _norm(init[0].value).startswith(f"np.full(len({shp}),1")
+    ctx.check("R35.5", key, good, f"`{src(st)}` in `for {i} in {src(lp.iter)}`" + ("" if good else
+              ": the extent that multiplies stride[i+1] must be shape[i+1]; with shape[i] the weights land on the wrong pixels of non-square grids"), fi, st)
+
+
+_run_c35b = run
+
+
+def run(ctx):  # noqa: F811
+    _run_c35b(ctx)
+    r35_5(ctx, ctx.model)
